@@ -47,6 +47,7 @@ type GenConfig struct {
 	OptBait     bool // bias to shapes the grammar optimizer rewrites (C09)
 	NoCodePred  bool // no &{} / !{} blocks (bootstrap subset)
 	NoSpellings bool // canonical spelling of literals and classes only
+	ByteLits    bool // literals whose value is not UTF-8 (front-end checks only)
 }
 
 // Profile returns the configuration of a named profile.
@@ -94,6 +95,7 @@ func Profile(name string) GenConfig {
 		c.EmptyClass = true
 		c.ICUnsafe = true
 		c.NoSpellings = true // the speller of the front-end checks draws its own spellings
+		c.ByteLits = true
 	case "bootsub":
 		// the syntax subset of the hand-written bootstrap front-end: no recovery/throw, no code
 		// predicates, no state blocks
@@ -159,6 +161,12 @@ func (c *gen) lit() *Expr {
 		rs[i] = c.rune_()
 	}
 	e := &Expr{K: KLit, Val: []byte(string(rs))}
+	if c.cfg.ByteLits && c.chance(6, "bytelit") {
+		// one or two bytes that are not UTF-8 (written as \xhh / \ooo; no i flag: lower-casing
+		// is defined on runes)
+		e.Val = [][]byte{{0xe9}, {0x80}, {0xff}, {0xc3}, {'a', 0xe9}, {0xe9, 0xe9}}[c.intn(0, 5, "bytelitval")]
+		return e
+	}
 	if c.cfg.ICLit && c.chance(25, "litic") {
 		e.IC = true
 	}
